@@ -61,8 +61,10 @@ def extract(f):
         'rows': rows,
         'sense': [0 if s == 0 else 1 for s in f.sense],
         'const': ['{}'.format(c) for c in f.const],
-        'lb': ['{}'.format(c) for c in f.lb],
-        'ub': ['{}'.format(c) for c in f.ub],
+        # binaries are written with their bounds intersected with [0, 1] (the translation of the formula object into the
+        # model's token lists does the same; the model renders what it is given)
+        'lb': ['{}'.format(c) for c in np.where(np.asarray(f.vtype) == 'B', np.maximum(f.lb, 0.0), f.lb)],
+        'ub': ['{}'.format(c) for c in np.where(np.asarray(f.vtype) == 'B', np.minimum(f.ub, 1.0), f.ub)],
         'vtype': ''.join(str(c) for c in f.vtype),
         'qmat': [[int(j) for j in qc] for qc in getattr(f, 'qmat', [])],
     }
